@@ -378,6 +378,12 @@ type snapResult struct {
 // no failure; otherwise the sink fails after failAt bytes and is cancelled.
 // skipPersist models a crash between Snapshot() and Persist.
 func (n *e1Node) snapshot(T time.Time, failAt int, skipPersist bool) (res snapResult) {
+	return n.snapshotWith(T, failAt, skipPersist, nil)
+}
+
+// snapshotWith: between (if set) runs after FSM.Snapshot() returned and before Persist - raft persists a
+// snapshot in another goroutine while the FSM goes on applying entries.
+func (n *e1Node) snapshotWith(T time.Time, failAt int, skipPersist bool, between func()) (res snapResult) {
 	n.use()
 	defer n.save()
 	*canaryCompactionStart = T.UnixNano()
@@ -386,6 +392,12 @@ func (n *e1Node) snapshot(T time.Time, failAt int, skipPersist bool) (res snapRe
 		res.err = err
 		return
 	}
+	snapIndex := n.applied
+	if between != nil {
+		n.save()
+		between()
+		n.use()
+	}
 	rs := snap.(*robustSnapshot)
 	res.first, res.last, res.end = rs.firstIndex, rs.lastIndex, rs.compactionEnd
 	if skipPersist {
@@ -393,7 +405,7 @@ func (n *e1Node) snapshot(T time.Time, failAt int, skipPersist bool) (res snapRe
 	}
 	// raft names snapshots term-index-milliseconds: make sure two snapshots never share a name
 	time.Sleep(2 * time.Millisecond)
-	sink, err := n.fss.Create(1, n.applied, 1, raft.Configuration{}, 0, &rafthttp.HTTPTransport{})
+	sink, err := n.fss.Create(1, snapIndex, 1, raft.Configuration{}, 0, &rafthttp.HTTPTransport{})
 	if err != nil {
 		res.err = err
 		return
@@ -412,7 +424,7 @@ func (n *e1Node) snapshot(T time.Time, failAt int, skipPersist bool) (res snapRe
 	}
 	snap.Release()
 	res.persisted = true
-	n.lastSnapIndex = n.applied
+	n.lastSnapIndex = snapIndex
 	n.snapCount++
 	return
 }
